@@ -390,7 +390,7 @@ def r3_equals_entry_points(ctx):
     ok = False
     if var:
         p, body = var[0]
-        t = body[-1].text()
+        t = L.expand_lets(body[-1])  # whatever explaining names the arity binds
         x, rest = p.items[0].text(), p.items[-1].text()
         ok = t == f"(if (seq (rest {rest})) (if (basilisp.lang.runtime/equals {x} (first {rest})) (recur (first {rest}) (rest {rest})) false) (basilisp.lang.runtime/equals {x} (first {rest})))"
     ctx.ob("C05.R3", f"{CORE}::=::every adjacent pair goes through runtime/equals", CORE, d.line, ok, "" if ok else "core = no longer chains runtime/equals over adjacent pairs")
